@@ -47,10 +47,15 @@ class Verdict:
         self.coverage = {}
         self.assumptions = []
         self.machinery_errors = []
+        self.also_known_of_clause_property = False
         os.makedirs(os.path.join(OUT, "replays"), exist_ok=True)
 
     def violation(self, desc, replay_obj):
         k = match_known(self.prop, desc)
+        if k is None and self.also_known_of_clause_property:
+            # C16: a defect listed for the property a clause belongs to shows up identically
+            # in multiprocessing mode; it is the same finding, not a new one
+            k = match_known(str(desc.get("clause", "")).split("_")[0], desc)
         if k is not None:
             self.known.setdefault(k["id"], [k, 0])[1] += 1
             return
